@@ -198,7 +198,7 @@ public:
             switch (r.weighted({ 70, 6, 12, 8, 4 })) {
             case 0:
                 // sender class, type, payload, id mode
-                p.ops.append(mkop(QStringLiteral("iq"), { (qint64)r.uniform(6), r.weighted({ 38, 38, 11, 11, 1, 1 }), (qint64)r.uniform(kPayloadCount), r.weighted({ 85, 15 }), (qint64)(e2ee && re.chance(0.15)) }, {}, salt));
+                p.ops.append(mkop(QStringLiteral("iq"), { (qint64)r.uniform(6), r.weighted({ 38, 38, 11, 11, 1, 1 }), (qint64)r.uniform(kPayloadCount), r.weighted({ 85, 15 }), (qint64)(e2ee && re.chance(0.15)), (qint64)re.chance(0.08) }, {}, salt));
                 break;
             case 1:
                 p.ops.append(mkop(QStringLiteral("req"), { (qint64)r.uniform(3) }, {}, salt));   // the client's own request stays in flight
@@ -383,14 +383,21 @@ public:
                         if (!in.type.isEmpty()) {
                             x += " type='" + in.type.toUtf8() + "'";
                         }
+                        // an IQ should have one child; a peer may send several, and the one a manager knows need not come first
+                        QByteArray payloadXml = pl.xml;
+                        if (op.arg(5) == 1) {
+                            payloadXml = "<query xmlns='urn:example:unknown-first-child'/>" + payloadXml;
+                            in.payload += QStringLiteral("+after_unknown_sibling");
+                            w.fault("iq_with_an_unknown_first_child_before_the_payload");
+                        }
                         if (op.arg(4) == 1) {
                             // end-to-end encrypted: the payload is the whole inner IQ
-                            const QByteArray inner = x + " xmlns='jabber:client'>" + QByteArray(pl.xml) + "</iq>";
+                            const QByteArray inner = x + " xmlns='jabber:client'>" + payloadXml + "</iq>";
                             x += "><enc xmlns='urn:sim:e2ee'>" + inner.toBase64() + "</enc></iq>";
                             in.payload += QStringLiteral("+e2ee");
                             w.fault("iq_end_to_end_encrypted_injected_by_extension");
                         } else {
-                            x += ">" + QByteArray(pl.xml) + "</iq>";
+                            x += ">" + payloadXml + "</iq>";
                         }
                         injected.append(in);
                         typesHit.insert(in.type);
